@@ -18,14 +18,38 @@ PASS_THROUGH = ('clone', 'to_owned', 'to_string', 'into', 'as_ref', 'as_str', 'd
 WRAPPERS = ('Some', 'Ok', 'Box::new', 'Arc::new')
 
 
+_REF = None
+
+
+def ref_params():
+    """parameter names of every function on the reference tree (the tree the rules were written against): a later rename
+    of a parameter is mapped back by position, so that `param(msg)` in a rule keeps meaning "the 2nd parameter" """
+    global _REF
+    if _REF is None:
+        import json
+        import os
+        try:
+            _REF = json.load(open(os.path.join(os.path.dirname(os.path.abspath(__file__)), 'ref_params.json')))
+        except OSError:
+            _REF = {}
+    return _REF
+
+
 class Bindings:
     def __init__(self, crate, f):
         self.crate = crate
         self.f = f
         self.by_id = {}
+        ref = ref_params().get(f'{crate.name}::{f.path}')
+        cur = [x.get('name') if isinstance(x, dict) and x.get('k') == 'bind' else None for x in f.params]
+        self.rename = {}
+        if ref and len(ref) == len(cur):
+            self.rename = {c: r for c, r in zip(cur, ref) if c and r and c != r}
         bodies = [f] + crate.closures_of(f)
         for b in bodies:
             for i, p in enumerate(b.params):
+                if b is f and isinstance(p, dict) and p.get('k') == 'bind' and p.get('name') in self.rename:
+                    p = dict(p, name=self.rename[p['name']])
                 self._bind(p, ('param', b.path, i), ())
             for n, anc in walk(b.hir):
                 k = n.get('k')
